@@ -70,6 +70,7 @@ def q_of(table, name, mode):
 
 
 _thr_cache = {}
+TABLEWRAP = [0]   # kernel calls that went through the table interposer of the sanitizer builds (harness/tablewrap.h)
 
 
 def daughter_thresholds(name):
@@ -97,7 +98,7 @@ def dbd_line(table, name, level, mode, window=None, tol=0.003, work_bound=0):
 
 def run_specs(variant, lines, seed, n_iid, n_grid, hostile, timeout=7200, nshards=None, extra_env=None, deep_events=0):
     """Returns (records, failures) where failures is a list of (shard, rc, stderr tail)."""
-    exe = build.harness(variant, "gen_monitor", ["gen_monitor.cc"])
+    exe = build.harness(variant, "gen_monitor", ["gen_monitor.cc"], extra_flags="-rdynamic", libs="-ldl")
     spec = tempfile.NamedTemporaryFile("w", suffix=".spec", delete=False, dir=build.variant_dir(variant))
     spec.write("\n".join(lines) + "\n")
     spec.close()
@@ -114,9 +115,20 @@ def run_specs(variant, lines, seed, n_iid, n_grid, hostile, timeout=7200, nshard
         for ln in out.splitlines():
             if ln.startswith("{"):
                 try:
-                    records.append(json.loads(ln))
+                    rec = json.loads(ln)
+                    if "tablewrap_divdif_calls" in rec:
+                        TABLEWRAP[0] += rec["tablewrap_divdif_calls"]
+                        continue
+                    records.append(rec)
                 except ValueError:
                     failures.append((shard, rc, "unparsable line: " + ln[:200]))
         if rc != 0:
-            failures.append((shard, rc, err[-3000:]))
+            # keep the head of the first sanitizer report (its kind and frames) as well as the tail
+            i = err.find("ERROR: AddressSanitizer")
+            if i < 0:
+                i = err.find("runtime error:")
+            if i < 0:
+                i = err.find("Assertion '")
+            head = err[max(0, i - 200): i + 2500] if i >= 0 else ""
+            failures.append((shard, rc, (head + "\n...\n" if head else "") + err[-1500:]))
     return exe, records, failures
